@@ -15,13 +15,14 @@ use pvcore::refcodec::*;
 pub fn check(tier: Tier) -> Check {
     let parts = vec![
         Part::new("C03/short", json!({"max_len": tier.pick(14, 19)}), 0, tier.pick(50, 900)),
+        Part::new("C03/eof", json!({"max_len": tier.pick(9, 12)}), 0, tier.pick(50, 600)),
         Part::new("C03/long", json!({"big": tier == Tier::Thorough, "narrow": tier == Tier::Quick}), 0, tier.pick(50, 900)),
     ];
     Check {
         also_rel: true,
         property: "C03",
         level: "model_checking",
-        rule: "(S1) every 2- and 3-packet sequence over {PINGRESP, short PUBACK, SUBACK, inbound PUBLISH QoS 0/1 with a small payload} up to the stated total length x all 2^(n-1) compositions of the byte stream into reads x {all chunks immediately available, Pending between chunks}; (S2) PUBLISH packets of 126..131, 510..516, 1022..1028, 1534..1540, 2046..2052, 4096, 16383..16390 bytes (quick: 127..129, 511..514, 1023..1026, 1536, 2047..2050, 16384..16386; thorough also 70000, 2097160) preceded by 0-2 small packets x {every single cut, every pair of cuts within +-3 of packet boundaries and multiples of 512, every uniform chunk size 1..=40 and 511..513, 1023..1025} x both reader modes; run in the overflow-checked and the wrapping-arithmetic build; oracle: reference framing at every quiescent point, no unread visible bytes at quiescence, no end-of-stream before the transport's, no zero-length read; non-trivial = a packet was split across reads".into(),
+        rule: "(S1) every 2- and 3-packet sequence over {PINGRESP, short PUBACK, SUBACK, inbound PUBLISH QoS 0/1 with a small payload} up to the stated total length x all 2^(n-1) compositions of the byte stream into reads x {all chunks immediately available, Pending between chunks}; (S1e) every 1-2-packet stream up to a small total length cut short after every prefix by end-of-stream / read error, under every composition of the prefix; (S2) PUBLISH packets of 126..131, 510..516, 1022..1028, 1534..1540, 2046..2052, 4096, 16383..16390 bytes (quick: 127..129, 511..514, 1023..1026, 1536, 2047..2050, 16384..16386; thorough also 70000, 2097160) preceded by 0-2 small packets x {every single cut, every pair of cuts within +-3 of packet boundaries and multiples of 512, every uniform chunk size 1..=40 and 511..513, 1023..1025} x both reader modes; run in the overflow-checked and the wrapping-arithmetic build; oracle: reference framing at every quiescent point, no unread visible bytes at quiescence, no end-of-stream before the transport's, no zero-length read; non-trivial = a packet was split across reads".into(),
         assumptions: vec!["packets are well-formed (malformed input is C04)".into()],
         parts,
     }
@@ -148,6 +149,60 @@ pub fn scenario(name: &str, params: &Value) -> Scenario {
             if split {
                 sys.m.hits.push("packet-split");
             }
+            sys.report(ex, &["packet-split"]);
+        });
+    }
+    if name == "C03/eof" {
+        // end-of-stream / read error after every prefix of a short multi-packet stream, under every
+        // composition of that prefix: every packet completely received before it is observed, then
+        // run() ends with SocketClosed - never earlier, never swallowed
+        let max_len = params["max_len"].as_u64().unwrap_or(9) as usize;
+        return Box::new(move |chz, ex| {
+            let mut sys = Sys::new("C03", &name, chz);
+            sys.params = params.clone();
+            let Some(sid) = setup(&mut sys) else {
+                return sys.report(ex, &[]);
+            };
+            let menu = small_packets(sid, 2, 3, &sys);
+            let mut seq: Vec<SPacket> = vec![];
+            let mut used = vec![false; menu.len()];
+            let mut total = 0usize;
+            for _ in 0..2 {
+                let cands: Vec<usize> = (0..menu.len())
+                    .filter(|&i| (i >= 3 || !used[i]) && total + menu[i].encode().len() <= max_len)
+                    .collect();
+                if cands.is_empty() {
+                    break;
+                }
+                let c = cands[chz.choose(cands.len())];
+                used[c] = true;
+                total += menu[c].encode().len();
+                seq.push(menu[c].clone());
+            }
+            let mut bytes = vec![];
+            let mut packets = vec![];
+            for p in &seq {
+                bytes.extend(p.encode());
+                packets.push((bytes.len(), p.clone()));
+            }
+            // the transport ends after `keep` bytes
+            let keep = chz.choose(bytes.len() + 1);
+            let bytes = bytes[..keep].to_vec();
+            let packets: Vec<(usize, SPacket)> = packets.into_iter().filter(|(e, _)| *e <= keep).collect();
+            let pending_between = chz.choose(2) == 1;
+            let read_error = chz.choose(2) == 1;
+            let mut cuts = vec![];
+            for off in 1..bytes.len() {
+                if chz.choose(2) == 1 {
+                    cuts.push(off);
+                }
+            }
+            if !bytes.is_empty() {
+                deliver_cut(&mut sys, &bytes, &cuts, &packets, pending_between);
+            }
+            sys.apply(if read_error { Ev::ReadErr } else { Ev::Eof });
+            sys.finish();
+            sys.m.hits.push("packet-split");
             sys.report(ex, &["packet-split"]);
         });
     }
